@@ -223,6 +223,28 @@ def rule_placement(ctx, R, NR, BR, rules=None):
                 for nm, bb in (("use_index", ui[0]["bb"]), ("set_check", sc[0]["bb"]), ("map", st_map[0]["bb"]), ("push", pushes[0]["bb"])):
                     ctx.check(pull["bb"] not in (b.reach(some, avoid_blocks=[bb]) if some != bb else set()), "DA-EDGE", b,
                               "every-edge:%s:%s" % (nm, tag), b.loc(bb), "`%s` must happen for every edge (no path through the loop body may skip it)" % nm)
+        # PERM-IDS: the work list is only pushed/popped (visiting order derives from label order, never re-sorted by
+        # creation order); label/edge scratch lists are only cleared, pushed and (cw) sorted by code
+        if want("DA-EDGE") or want("PERM-IDS"):
+            def effects(var):
+                out = []
+                for s_ in S.calls:
+                    if s_["args"] and core.same(s_["args"][0], var) and not s_["c"].local:
+                        base_ = core.callee_base(s_["key"])
+                        if base_ in core.IDENTITY_KEYS or base_ in core.ADVANCE_KEYS or base_ in (
+                                "alloc::vec::Vec::len", "alloc::vec::Vec::is_empty", "core::slice::iter", "core::ops::Index::index", "core::slice::len"):
+                            continue
+                        out.append(base_.split("::")[-1])
+                return sorted(set(out))
+            eff = effects(stack)
+            ctx.check(set(eff) <= {"push", "pop"}, "PERM-IDS", b, "worklist-only-push-pop:" + tag, b.span,
+                      "the work list may only be pushed and popped (the traversal order must come from the label-ordered edge map); found %s" % eff)
+            scratch = fb["args"][1]
+            if scratch[0] == "var":
+                eff = effects(scratch)
+                allowed_s = {"push", "clear"} | ({"sort_by", "sort_unstable_by", "sort_by_key", "sort_unstable_by_key", "sort", "sort_unstable"} if tag == "cw" else set())
+                ctx.check(set(eff) <= allowed_s, "PERM-IDS", b, "scratch-list-effects:" + tag, b.span,
+                          "the per-state label list may only be cleared, filled%s; found %s" % (" and sorted" if tag == "cw" else "", eff))
         # other state_id_map stores: only ROOT := ROOT_IDX
         if want("B-FAIL"):
             for s in S.stores:
@@ -239,6 +261,14 @@ def rule_placement(ctx, R, NR, BR, rules=None):
             ub = S.named("use_base", HELPER)
             ctx.check(len(ub) == 1 and m(base, ub[0]["args"][1]) and core.same(ub[0]["args"][0], helper), "DA-BASE", b, "use_base:" + tag,
                       b.loc(ub[0]["bb"]) if ub else b.span, "bw: the base stored must also be marked used in the helper")
+            if len(ub) == 1:
+                ctx.check(pops[0]["bb"] not in b.reach(fb["bb"], avoid_blocks=[ub[0]["bb"]]) - {fb["bb"]} or fb["bb"] == ub[0]["bb"], "DA-BASE", b,
+                          "use_base-every-placed-state:" + tag, b.loc(ub[0]["bb"]),
+                          "every base handed out by find_base must be marked used (on every path, incl. the array-extension path), "
+                          "otherwise a later state can be given the same base")
+        if want("B-BASE") or want("DA-BASE"):
+            ctx.check(pops[0]["bb"] not in b.reach(fb["bb"], avoid_blocks=[sb["bb"]]) - {fb["bb"]}, "B-BASE", b, "set_base-every-placed-state:" + tag,
+                      b.loc(sb["bb"]), "every state whose children were placed must get its base stored (on every path)")
         # --- B-EXT: extension guard
         if want("B-EXT"):
             ext = [s for s in S.calls if s["c"].body_path == r.extend.path]
@@ -707,6 +737,16 @@ def _cw_nfa_fn(ctx, v, NR, b, S, want):
                 okf = any(x[0] == "call" and core.callee_base(x[1]) == ITER_NEXT and x[2][0][0] == "var" and core.same(x[2][0], chars) for x in walk(idx))
             ctx.check(okf, "PERM-FREQ", b, "histogram:cw", b.span,
                       "the mapper's input must be a histogram over the chars passed to add (freqs[c] += 1 for each char)")
+            # the histogram's length must not depend on the order in which characters were seen: grown to exactly c+1
+            rs = [s_ for s_ in S.keyed(lambda k: k == "alloc::vec::Vec::resize") if core.same(s_["args"][0], freqs)]
+            okr = True
+            for s_ in rs:
+                okr = okr and okf and m(B("Add", lambda t, e: core.same(t, incs[0]["tgt"][2]), K(1)), s_["args"][1]) and is_const(s_["args"][2], 0)
+            eff = sorted({core.callee_base(s_["key"]).split("::")[-1] for s_ in S.calls if s_["args"] and core.same(s_["args"][0], freqs)
+                          and not s_["c"].local and core.callee_base(s_["key"]) not in core.IDENTITY_KEYS})
+            ctx.check(okr and set(eff) <= {"resize", "len", "index", "index_mut", "deref"}, "PERM-FREQ", b, "histogram-length-minimal:cw", b.span,
+                      "the histogram may only grow to exactly (largest code point seen)+1, filled with zeros — its final length (and so the mapper "
+                      "table) must not depend on the order of registration; resize args %s, effects %s" % ([show(s_["args"][1]) for s_ in rs], eff))
 
 
 def rule_build_entry(ctx, R, NR, BR, rules=None):
